@@ -40,8 +40,8 @@ pub struct WsState {
     pub out_closed_at: Option<usize>,
     /// The sink fails from now on.
     pub sink_err: bool,
-    /// The sink is not ready (back-pressure) until the harness says so.
-    pub sink_blocked: bool,
+    /// How many more messages the sink accepts (`None` = any number); `Some(0)` = not ready.
+    pub sink_room: Option<usize>,
     pub sink_waker: Option<Waker>,
     pub polls_next: u64,
 }
@@ -76,10 +76,11 @@ impl SimWs {
             w.wake();
         }
     }
-    pub fn block_sink(&self, blocked: bool) {
+    /// Back-pressure: the sink accepts `room` more messages, then is not ready (`None`: no limit).
+    pub fn set_sink_room(&self, room: Option<usize>) {
         let mut s = self.0.lock().expect("ws");
-        s.sink_blocked = blocked;
-        if !blocked {
+        s.sink_room = room;
+        if room != Some(0) {
             if let Some(w) = s.sink_waker.take() {
                 w.wake();
             }
@@ -98,7 +99,7 @@ impl WebSocket for SimWs {
         if s.sink_err {
             return Poll::Ready(Err(ws_err("sink")));
         }
-        if s.sink_blocked {
+        if s.sink_room == Some(0) {
             s.sink_waker = Some(cx.waker().clone());
             return Poll::Pending;
         }
@@ -108,6 +109,9 @@ impl WebSocket for SimWs {
         let mut s = self.0.lock().expect("ws");
         if s.sink_err {
             return Err(ws_err("sink"));
+        }
+        if let Some(n) = s.sink_room.as_mut() {
+            *n = n.saturating_sub(1);
         }
         s.out.push(item);
         Ok(())
